@@ -17,10 +17,12 @@ PRIVACY = {"E0603", "E0432", "E0433", "E0364", "E0365", "E0624"}
 def item(i):
     vis = (i["vis"] + " ") if i["vis"] else ""
     iv = (i["itemvis"] + " ") if i["itemvis"] else ""
+    mac = "entrait_export" if i.get("exp") == "macro" else "entrait"
+    opt = ", export" if i.get("exp") == "option" else ""
     if i["mode"] == "fn":
-        return f"#[::entrait::entrait({vis}T)]\n    {iv}fn f<D>(deps: &D) {{}}"
+        return f"#[::entrait::{mac}({vis}T{opt})]\n    {iv}fn f<D>(deps: &D) {{}}"
     if i["mode"] == "mod":
-        return f"#[::entrait::entrait({vis}T)]\n    {iv}mod m {{ pub fn f<D>(deps: &D) {{}} }}"
+        return f"#[::entrait::{mac}({vis}T{opt})]\n    {iv}mod m {{ pub fn f<D>(deps: &D) {{}} }}"
     # (the delegation-target trait is called TI: the generated `trait DelegateTr<T>` shadows a trait named `T`, see C19)
     # for trait inputs `itemvis` is the visibility keyword written before the delegation-target trait's name in the
     # attribute: it must not matter - the target trait takes the visibility of the original trait
@@ -109,7 +111,7 @@ def main():
     chk.cov["distinct_nontrivial"] = sum(1 for e in events if not e["obs"]["compiled"])
     chk.cov["positive_probes"] = sum(1 for e in events if e["obs"]["compiled"])
     chk.cov["rule"] = ("requested visibility {none, pub, pub(crate), and for fn inputs pub(super), pub(in crate::cases), pub(in crate::cases::<the module of the case>)} x item visibility (for trait inputs: the visibility keyword written before the target trait's name) {none, pub, "
-                       "pub(crate)} x {fn, mod, trait (delegation-target trait)} x probe location {same module, child, sibling, parent, cousin (another module of the crate, outside the parent), other crate}; module inputs are probed through both names, the "
+                       "pub(crate)} x {fn, mod, trait (delegation-target trait)} x {plain, `export` option, entrait_export} (fn / mod, requests none and pub(crate)) x probe location {same module, child, sibling, parent, cousin (another module of the crate, outside the parent), other crate}; module inputs are probed through both names, the "
                        "re-export D::T and the trait itself D::m::T (from the locations that can name m); "
                        "all points replayed; non-trivial = negative probe (naming the trait must NOT compile)")
     chk.cov["exhaustive"] = True
